@@ -48,3 +48,39 @@ Print Assumptions C01_run.
 Theorem C01_program_order_admissible : forall l, built_phase l -> admissible l l.
 Proof. exact (admissible_refl is_state_var exec_state_token). Qed.
 Print Assumptions C01_program_order_admissible.
+
+(* The orders the two backends really use are admissible -- by the models of the execution controller
+   (C04) and of the lowering (C05), applied to a builder-made phase body: *)
+From Dagrt Require Bridge Controller DagAst Simplify GenC05.
+
+(* the interpreter: for every iteration order of the dependency sets and of the root set, every
+   guard valuation / target and whatever state the controller was left in, the statements visited in a
+   step are a prefix of an admissible order -- the whole order when the step is not cut short *)
+Theorem C01_interpreter_order_admissible : forall l ro target st0,
+  built_phase l ->
+  Controller.same_members ro (Controller.roots (Bridge.cph l)) ->
+  let o := Controller.run_single_step st0 (Bridge.cph l) ro target in
+  exists rest,
+    admissible l (pick l (Controller.visited (Controller.o_log o) ++ rest)) /\
+    (Controller.never_stops (Bridge.cph l) target -> rest = nil).
+Proof.
+  exact (fun l ro target st0 Hb =>
+           Bridge.controller_order_admissible l (Bridge.built_wf_body is_state_var exec_state_token l Hb)
+                                              ro target st0).
+Qed.
+Print Assumptions C01_interpreter_order_admissible.
+
+(* the generators: the leaves of the tree create_ast_from_phase hands to them (whatever the guards,
+   loop nests and Nop-ness of the statements) are in an admissible order *)
+Theorem C01_generator_order_admissible : forall l gd lp np,
+  built_phase l ->
+  exists order,
+    DagAst.topo_order (Bridge.dph l gd lp np) = DagAst.LOk order /\
+    (exists t, DagAst.lower false true GenC05.lower_skip_false_guard (Bridge.dph l gd lp np) = DagAst.LOk t) /\
+    admissible l (pick l order).
+Proof.
+  exact (fun l gd lp np Hb =>
+           Bridge.lowering_order_admissible l (Bridge.built_wf_body is_state_var exec_state_token l Hb)
+                                            gd lp np GenC05.lower_skip_false_guard).
+Qed.
+Print Assumptions C01_generator_order_admissible.
